@@ -197,6 +197,54 @@ def _run(env):
                      defect_key=None)
     if not ctx.quick: ctx.exhaustive.append('every value 0..255 of KeyFlags/Features/KeyServerPreferences octets; every unknown subpacket type x critical bit')
 
+    # ---- 5b: the SubPackets object as a state machine (Model/SubArea.v sa_parse / sa_run): parse, copies, added subpackets ----
+    import copy as _copy2
+    from pgpy.packet.fields import SubPackets, SignatureSP
+    for i in range(ctx.n(900, 9000)):
+        ha, hdesc, hcl = gen_area(rng, fpr, rng.choice([0, 1, 2, 3]), wild=False, enums=enums)
+        ua, udesc, ucl = gen_area(rng, fpr, rng.choice([0, 1, 2]), wild=False, enums=enums)
+        if 'unknown-enum' in hcl or 'unknown-enum' in ucl:
+            continue                       # refused at parse time (the recorded finding); nothing to run a history on
+        rest = bytes(rng.randrange(256) for _ in range(rng.choice([0, 2, 9])))
+        pin = ha + ua + rest
+        ops, mops = [], []
+        for _ in range(rng.choice([0, 1, 2, 3, 5])):
+            kd = rng.choice(['C', 'C', 'U', 'U', 'H'])
+            if kd == 'C':
+                ops.append(('C',)); mops.append('C')
+            else:
+                ty = rng.choice([100, 101, 110]); cr = rng.random() < 0.2; bd = bytes(rng.randrange(256) for _ in range(rng.randrange(0, 5)))
+                ops.append((kd, ty, cr, bd)); mops.append('%s:%s:%d:%s' % (kd, hn(ty), 1 if cr else 0, hx(bd)))
+        case = {'op': 'sahist', 'input': pin.hex(), 'ops': mops}
+        ctx.case('subpackets-history', (pin, tuple(mops)), sample={'hashed': hdesc, 'unhashed': udesc, 'ops': mops})
+        def real():
+            sp = SubPackets(); buf = bytearray(pin); sp.parse(buf)
+            for o_ in ops:
+                if o_[0] == 'C':
+                    sp = _copy2.copy(sp)
+                else:
+                    obj = SignatureSP(bytearray(S.subpacket(o_[1], o_[3], critical=o_[2])))
+                    sp[('h_' if o_[0] == 'H' else '') + obj.__class__.__name__] = obj
+            return sp, bytes(buf)
+        o = outcome_timed(2.0, real)
+        mo = d.call('sa_hist', hx(pin), ','.join(mops) or '-')
+        if o[0] != 'ok' or mo == 'ERR':
+            if (o[0] == 'ok') != (mo != 'ERR'):
+                ctx.fail('subpackets-history', 'SubPackets.parse and the model disagree on accepting the areas', dict(case, impl=repr(o)[:200], model=mo[:100]))
+            continue
+        sp, r2 = o[1]
+        got = ' '.join([hx(sp._hashed_raw) if sp._hashed_raw is not None else '-', hx(sp._unhashed_raw) if sp._unhashed_raw is not None else '-',
+                        str(len(sp._hashed_sp)), str(len(sp._unhashed_sp)), hx(r2)])
+        if not ctx.expect_eq('subpackets-history', 'SubPackets state after the history (received areas kept / dropped, subpacket counts, rest) differs from the model', case, got, mo):
+            continue
+        he, ue = bytes(sp.__hashbytearray__()), bytes(sp.__unhashbytearray__())
+        if sp._hashed_raw is not None and he != ha:
+            ctx.fail('subpackets-history', 'hashed area emitted after a history without hashed additions is not the received one', dict(case, impl=he.hex()[:200]))
+        if sp._unhashed_raw is not None and ue != ua:
+            ctx.fail('subpackets-history', 'unhashed area emitted after a history without unhashed additions is not the received one', dict(case, impl=ue.hex()[:200]))
+        if bytes(sp.__bytearray__()) != he + ue:
+            ctx.fail('subpackets-history', 'SubPackets.__bytearray__ is not hashed area followed by unhashed area', case)
+
     # ---- 6: the three RSA algorithm ids (1, and the deprecated 2 / 3) in the signature header: the octet received is the octet hashed ----
     import hashlib
     kr = env.key('rsa2048')
@@ -314,6 +362,22 @@ def replay(ctx, case):
                     return len(es) == 1 and bool(c.verify(s2, es[0]))
                 o = outcome(chk)
                 return (o == ('ok', True)) if case['op'] == 'embedded-flip' else (o != ('ok', True))
+            if case['op'] == 'sahist':
+                import copy as _c
+                from pgpy.packet.fields import SubPackets, SignatureSP
+                pin = bytes.fromhex(case['input'])
+                def real():
+                    sp = SubPackets(); buf = bytearray(pin); sp.parse(buf)
+                    hl = int.from_bytes(pin[:2], 'big'); ul = int.from_bytes(pin[2 + hl:4 + hl], 'big')
+                    hset = uset = False
+                    for m in case['ops']:
+                        f = m.split(':')
+                        if f[0] == 'C': sp = _c.copy(sp); continue
+                        obj = SignatureSP(bytearray(S.subpacket(int(f[1], 16), unhx(f[3]), critical=f[2] == '1')))
+                        sp[('h_' if f[0] == 'H' else '') + obj.__class__.__name__] = obj
+                        hset |= f[0] == 'H'; uset |= f[0] == 'U'
+                    return (hset or bytes(sp.__hashbytearray__()) == pin[:2 + hl]) and (uset or bytes(sp.__unhashbytearray__()) == pin[2 + hl:4 + hl + ul])
+                return outcome(real) != ('ok', True)
             if case['op'] == 'rsaid':
                 kk = pgpy.PGPKey.from_blob(bytes.fromhex(case['key']))[0]
                 pkt = bytearray(bytes.fromhex(case['sig']))
